@@ -160,6 +160,8 @@ type opSpec struct {
 	Parts []string `json:"parts,omitempty"` // load/release partitions; partition events use Parts[0]
 	Ts    uint64   `json:"ts"`
 	ID    int64    `json:"id"`
+	// PreStamp: the source message already carries a ReplicateInfo (1: of an upstream replication, 2: a non-replicate one)
+	PreStamp int `json:"pre_stamp,omitempty"`
 
 	Index      string      `json:"index,omitempty"`
 	Field      string      `json:"field,omitempty"`
@@ -205,7 +207,14 @@ func kvs(p [][2]string) []*commonpb.KeyValuePair {
 }
 
 func (s *opSpec) base(t commonpb.MsgType) *commonpb.MsgBase {
-	return &commonpb.MsgBase{MsgType: t, MsgID: s.ID, Timestamp: s.Ts, SourceID: 1}
+	b := &commonpb.MsgBase{MsgType: t, MsgID: s.ID, Timestamp: s.Ts, SourceID: 1}
+	switch s.PreStamp {
+	case 1: // the source operation was itself written by a replication (cascade): it carries that replication's stamp
+		b.ReplicateInfo = &commonpb.ReplicateInfo{IsReplicate: true, MsgTimestamp: s.Ts/2 + 7, ReplicateID: "upstream-rid"}
+	case 2:
+		b.ReplicateInfo = &commonpb.ReplicateInfo{IsReplicate: false, MsgTimestamp: 7}
+	}
+	return b
 }
 
 func (s *opSpec) baseMsg() msgstream.BaseMsg {
